@@ -465,7 +465,7 @@ def unit_cvc_chain(ctx):
                 cv2, got2 = val2(lib, e["cert"], prev_cvc, dt)
                 n_eval += 2
                 dg += [cv == 0, cv2 == 0]
-                lab = "none" if dt is None else ("valid" if M.date_ok(dt) else "invalid")
+                lab = "none" if dt is None else "valid" if M.date_ok(dt) else "nondigit" if max(dt) > 9 else "noncalendar"
                 for fn, code in (("btokCVCVal", cv), ("btokCVCVal2", cv2)):
                     if (code == 0) != expect:
                         ctx.violation("%s:%s:date-%s" % (fn, "valid-refused" if expect else "invalid-accepted", lab),
@@ -726,7 +726,7 @@ def unit_sm(ctx):
         leform = "none" if rdf_len == 0 else "short" if cdf_len < 256 and rdf_len <= 256 else "ext2" if cdf_len else "ext3"
         if not ctx.case(desc, "sm:Lc=%s,Le=%s" % (lcform, leform)):
             continue
-        tag(ctx, "sm:pairs=%d" % npairs, "sm:cdf=%s" % ("0" if cdf_len == 0 else "<128" if cdf_len < 127 else "127..255" if cdf_len < 256 else ">=256"),
+        tag(ctx, "sm:pairs=%d" % npairs, "sm:cdf=%s" % ("0" if cdf_len == 0 else "1..126" if cdf_len < 127 else "127..255" if cdf_len < 256 else ">=256"),
             "sm:rdf=%d" % rdf_len if rdf_len in (0, 256, 65536) else "sm:rdf=%s" % ("<256" if rdf_len < 256 else ">256"))
         rr = random.Random(seed)
         st_t, st_ct = lib.alloc(keep), lib.alloc(keep)
